@@ -40,6 +40,10 @@ def collect(run, rng, nworlds, nqueries, mode, thresholds_fn, quality, nsteps=(4
     for wi in range(nworlds):
         n = rng.randrange(ndocs[0], ndocs[1] + 1)
         adocs = {"k%d" % i: world.rand_doc(rng, boosts=(wi % 3 == 2)) for i in range(n)}
+        if mode == "rank" and wi % 2 == 1:
+            # document boosts that are not dyadic: the stored (32-bit) weight is not the weight that was given
+            for d in adocs.values():
+                d["b4"] = rng.choice([4, 4, 0.4, 1.2, 2.8, 13.2])
         plan = world.rand_plan(rng, adocs.keys())
         w = world.World(adocs, plan, storage="ram", blocklimit=rng.choice([None, 1, 2, 3]))
         try:
